@@ -126,5 +126,6 @@ def check_case(ctx, case):
 
 TECHNIQUE = "runtime monitoring: differential monitor, one-shot run vs incremental extension histories at every cut of the trace"
 LEVEL_TEXT = ("{Q} (quick) / {T} (thorough) traces x ~10 cut sets each (all single splits, all cut sets for n<=5): index, best probability and best "
-              "path of the incremental history must equal the one-shot result (paths up to exact ties). Held-on-observed.")
+              "path of the incremental history must equal the one-shot result (paths up to exact ties); extension-only runs without width are also held to the non-emitting filter invariant of C07 "
+              "(the incremental search must apply the same filter as the one-shot search). Held-on-observed.")
 LEVEL_NOTE = "Trusted: nothing beyond the executions. Traces <= 8 observations."
